@@ -276,9 +276,22 @@ def judge(run, prop, results, claimed):
             for t, b, base in zip(traces, best, owners):
                 if b < len(t["ev"]) + 1:
                     ev = t["ev"][b - 1] if 0 < b <= len(t["ev"]) else None
-                    run.violation({**base, "aspect": "lin", "event_index": b, "event": ev,
+                    stuck = "?"
+                    if ev is not None:
+                        if ev["e"] == "ret":
+                            calls = [e for e in t["ev"][:b] if e["e"] == "call" and e["t"] == ev["t"]]
+                            is_read = bool(calls) and calls[-1]["op"]["op"] in realize_reads()
+                            stuck = "ret-read" if is_read else "ret-write"
+                        else:
+                            stuck = ev["e"]
+                    run.violation({**base, "aspect": "lin", "event_index": b, "event": ev, "stuck": stuck,
                                    "final": t["ev"][-1]["doc"],
                                    "detail": f"history is not linearizable: stuck at event {b} = {json.dumps(ev)[:200]}"})
+
+
+def realize_reads():
+    from . import seq
+    return seq.realize_read_ops()
 
 
 def pairs(menu_a, menu_b):
